@@ -10,7 +10,7 @@ use crate::codecs::*;
 use crate::engine::*;
 use crate::{vensure, vfail};
 
-pub const RULE: &str = "generated BEP 15 messages (all kinds, boundary-biased fields, all four events, 0..255 scrape hashes x max_scrape_torrents in {0,1,2,69,70,71,254,255}, 0..300 reply peers per family) checked three ways: aquatic write_bytes == independent encoder byte for byte; aquatic parse_bytes of independently encoded bytes == expected fields; parse(write(x)) == x; plus rejection cases (every truncation length, unknown action/event, wrong protocol id, port 0, empty or ragged hash list) against an independent acceptance rule. non-trivial = event Stopped, >=1 peer/hash, or a rejection case; distinct = distinct serialised case";
+pub const RULE: &str = "generated BEP 15 messages (all kinds, boundary-biased fields, all four events, 0..409 scrape hashes (what an 8192-byte datagram holds) x max_scrape_torrents in {0,1,2,69,70,71,254,255}, 0..300 reply peers per family) checked three ways: aquatic write_bytes == independent encoder byte for byte; aquatic parse_bytes of independently encoded bytes == expected fields; parse(write(x)) == x; plus rejection cases (every truncation length, unknown action/event, wrong protocol id, port 0, empty or ragged hash list) against an independent acceptance rule. non-trivial = event Stopped, >=1 peer/hash, or a rejection case; distinct = distinct serialised case";
 
 #[derive(Debug, Clone, Serialize, Deserialize)]
 pub enum Case {
@@ -263,8 +263,17 @@ pub fn prop(case: &Case) -> CaseResult {
                         Violation::new("roundtrip-rejected", format!("parse(write(x)) rejected: {:?} for {:?}", e, req))
                     })?;
                     out.checks += 1;
+                    // the parser's limit is a u8: at most 255 hashes survive a round trip
+                    let expect_back = match &aq {
+                        Request::Scrape(s) if s.info_hashes.len() > 255 => Request::Scrape(ScrapeRequest {
+                            connection_id: s.connection_id,
+                            transaction_id: s.transaction_id,
+                            info_hashes: s.info_hashes[..255].to_vec(),
+                        }),
+                        other => other.clone(),
+                    };
                     vensure!(
-                        back == aq,
+                        back == expect_back,
                         "roundtrip-mismatch",
                         "parse(write(x)) = {:?}, x = {:?}",
                         back,
@@ -464,6 +473,9 @@ fn req_strategy(max_hashes: usize) -> impl Strategy<Value = UReq> {
             }),
         3 => (i64b(), i32b(), proptest::collection::vec(any::<[u8; 20]>(), 1..=max_hashes))
             .prop_map(|(cid, tid, hashes)| UReq::Scrape { cid, tid, hashes }),
+        // up to what the 8192 byte receive buffer takes: (8192 - 16) / 20 = 408 hashes
+        1 => (i64b(), i32b(), prop_oneof![Just(255usize), Just(256usize), Just(257usize), Just(300usize), Just(325usize), Just(408usize), 250usize..=409], any::<u8>())
+            .prop_map(|(cid, tid, n, b)| UReq::Scrape { cid, tid, hashes: (0..n).map(|i| { let mut h = [b; 20]; h[0] = (i % 256) as u8; h[1] = (i / 256) as u8; h }).collect() }),
     ]
 }
 
@@ -523,7 +535,7 @@ fn enumerated() -> Vec<Case> {
     for n in 0..=16u16 {
         v.push(Case::Request { req: UReq::Connect { tid: 7 }, max_scrape: 70, ext: vec![], mutation: Mutation::Truncate(n) });
     }
-    for k in [0usize, 1, 2, 3, 69, 70, 71, 254, 255] {
+    for k in [0usize, 1, 2, 3, 69, 70, 71, 254, 255, 256, 257, 300, 325, 326, 408, 409] {
         for max in [0u8, 1, 2, 69, 70, 71, 254, 255] {
             let hashes: Vec<[u8; 20]> = (0..k).map(|i| [i as u8; 20]).collect();
             let req = UReq::Scrape { cid: 9, tid: 10, hashes };
